@@ -585,6 +585,24 @@ func c07runMc(args []string) Result {
 	return c07guard("Multicode round trip", func(r *c07res) {
 		g, _ := c07parse(args)
 		r.tags = c07sizeTags(g)
+		if g.n > 255 {
+			// a record cannot name more than 255 vertices: refusing (panic) is the documented behaviour and not a
+			// violation; an encoder that accepts such a graph must still round-trip it (checked below).
+			refused := false
+			func() {
+				defer func() {
+					if recover() != nil {
+						refused = true
+					}
+				}()
+				graph.MulticodeEncode(g.dense())
+			}()
+			if refused {
+				r.tags = append(r.tags, "mc-refused")
+				r.out.WriteString("panic")
+				return
+			}
+		}
 		enc := graph.MulticodeEncode(g.dense())
 		if g.n <= 64 {
 			if e2 := graph.MulticodeEncode(g.sparse()); string(e2) != string(enc) {
@@ -911,6 +929,10 @@ func init() {
 					emit("mc " + c07fromEG(fromMask(n, mask)).tokens())
 				}
 			}
+			emit("mc " + c07G{n: 255}.tokens())
+			emit("mc " + c07norm(255, [][2]int{{0, 254}, {253, 254}}).tokens())
+			emit("mc " + c07G{n: 256}.tokens())
+			emit("mc " + c07norm(256, [][2]int{{0, 255}, {3, 4}}).tokens())
 			cases := 300
 			if tier == "thorough" {
 				cases = 6000
